@@ -57,7 +57,14 @@ def mk(tag, o, s, md_o, md_s, layout='csr'):
     t = Table(np.array(D, float).reshape(len(o), len(s)), list(o), list(s), cp(omd), cp(smd))
     if layout == 'csc':
         t.data(s[0], 'sample')
-    return t, M(o, s, D, omd, smd)
+    m = M(o, s, D, omd, smd)
+    if layout == 'counted_then_zeroed':
+        # the number of stored entries is read, then an in-place change along the observations lowers it
+        t.nnz
+        t.get_table_density()
+        t.transform(lambda v, i, md: np.where(v > 4.5, 0, v), axis='observation', inplace=True)
+        m = m.transform('observation', lambda v, i, md: [0 if x > 4.5 else x for x in v])
+    return t, m
 
 
 def custom(x, y):
@@ -139,7 +146,7 @@ def check(case, acc, tmp):
                         for fn in ((FUNCS if extras else FUNCS[:3]) if ci < 6 else ('default', 'two')):
                             if fn == 'none' and (sm, om) != ('union', 'union'):
                                 continue        # None functions are documented for the fast (union) merge only
-                            lays = ('csr', 'csc') if ci == 0 and fn == 'default' else ('csr',)
+                            lays = ('csr', 'csc', 'counted_then_zeroed') if ci == 0 and fn == 'default' else ('csr',)
                             for lay in lays:
                                 kw = dict(bo=bo, bs=bs, md=list(cfg), sample=sm, observation=om, f=fn, layout=lay)
                                 if only is not None and only != kw:
@@ -216,8 +223,15 @@ def check_list(case, acc):
             exp = MD.merge(MD.merge(mA, mB), mC)
             acc.trans += 1
             kw = dict(bo=bo, bs=bs, co=co, cs=cs, form=form)
+            others = [B, C] if form == 'list' else (B, C)
             try:
-                R = A.merge([B, C] if form == 'list' else (B, C))
+                R = A.merge(others)
+                # the caller's collection is an input: it is left as it was, and merging it again gives the same
+                if len(others) != 2 or others[0] is not B or others[1] is not C:
+                    acc.violation('merge:operand-list-modified', 'merge changed the %s of tables it was given '
+                                  '(%d entries afterwards)' % (form, len(others)), dict(case, **kw))
+                    continue
+                R = A.merge(others)
             except Exception as e:
                 acc.violation('merge:list-raised:' + type(e).__name__, 'merge(list) raised %s: %s' % (type(e).__name__, e),
                               dict(case, **kw))
